@@ -358,7 +358,9 @@ def arm_deep_import(rec):
     instrumented and checking"""
     root = tempfile.mkdtemp(prefix="jtv_c18_deep_")
     try:
-        margins = list(range(60, 700, 40))
+        # dense close to the limit (a visitor that is iterative over statements only overflows in the last few dozen
+        # frames), sparse further away (a recursive one overflows hundreds of frames early)
+        margins = list(range(2, 80, 2)) + list(range(80, 700, 40))
         big = " + ".join(["1"] * 150)
         for m in margins:
             with open(os.path.join(root, f"jtv_deep_{m}.py"), "w") as f:
